@@ -254,6 +254,12 @@ class Project:
                 for a in stmt.names:
                     m.symbols[a.asname or a.name] = Symbol("from", stmt, base, a.name)
 
+        # module-level statements that may bind names the symbol table cannot list (loops / calls writing into globals(), setattr on the
+        # module ...): the folder runs them on demand when a name is missing (symeval.Evaluator._run_dynamic)
+        m.dynamic_stmts = [st for i, st in enumerate(m.tree.body)
+                           if isinstance(st, (ast.For, ast.While, ast.With))
+                           or (isinstance(st, ast.Expr) and isinstance(st.value, ast.Call))
+                           or (isinstance(st, ast.If) and not all(isinstance(x, (ast.Import, ast.ImportFrom, ast.Pass)) for x in ast.walk(st) if isinstance(x, ast.stmt) and x is not st))]
         for stmt in m.tree.body:
             if isinstance(stmt, (ast.Import, ast.ImportFrom)):
                 add_imports(stmt)
